@@ -108,6 +108,11 @@ def harnesses(ctx):
         Harness('piggylist.createNode', 'harness_createNode', cpp=cpp, c=c, defines=d, enforce='h_pl_createNode', unwind=2, object_bits=12,
                 must_have=['postcondition', 'invariant base', 'invariant step'],
                 clause='growth: returns the old size; afterwards the cell of that index is allocated; existing blocks untouched; invariant kept', funcs=[P + 'createNode']),
+        Harness('piggylist.createNode.conc', 'harness_createNode_conc', cpp=cpp, c=c, defines=d + ['VX_CONC'], enforce='h_pl_createNode', unwind=2, object_bits=12,
+                must_have=['postcondition', 'invariant base', 'invariant step', 'G\\.'],
+                clause='createNode under interference (any number of concurrent creators/growers): unique own index, counters cover it on return, every intermediate '
+                       'state visible to lock-free readers satisfies WINV (block stored before the counters cover it), lock released only in a quiescent state', funcs=[P + 'createNode']),
+        Harness('piggylist.winv', 'lemma_winv', c=c, defines=d, unwind=None, must_have=['lemma'], clause='INV_PL implies WINV; under WINV every covered index lives in an allocated block'),
         Harness('piggylist.append', 'harness_append', cpp=cpp, c=c, defines=d, enforce='h_pl_append', unwind=2, object_bits=12,
                 must_have=['postcondition', 'invariant base', 'invariant step'],
                 clause='append: as createNode, and the new cell holds the element', funcs=[P + 'append']),
@@ -121,7 +126,8 @@ def harnesses(ctx):
 
 ASSUMPTIONS = [
     'index + 2^16 < 2^31: `(1 << blockNum)` in get() is an int shift, undefined beyond that (recorded observation, not claimed as a violation: unreachable with 32-bit element ids below 2^31 - 2^16)',
-    'SpinLock provides mutual exclusion (ghost flag); sequential consistency',
+    'SpinLock: lock()/unlock() are used through the postconditions proved for the real SpinLock in unit spinlock (ghost owner); sequential consistency',
+    'concurrent contract for createNode only (append/insertAt: sequential contracts); m_size bounded below 2^31 - 2^16',
     'operator new[] returns a fresh object or does not return',
     'T = unsigned long (the instantiation used by DisjointSet)',
 ]
@@ -132,5 +138,8 @@ MUTANTS = [
     dict(name='createNode: container_size not updated', file=PL, find=r'(std::size_t createNode\(\) \{.*?)container_size \+= allocsize;', repl=r'\1', expect=r'piggylist\.createNode'),
     dict(name='append: allocsize not doubled', file=PL, find=r'(std::size_t append\(T element\) \{.*?)allocsize <<= 1;', repl=r'\1', expect=r'piggylist\.append'),
     dict(name='createNode: returns new size', file=PL, find=r'(std::size_t createNode\(\) \{.*?)return new_index;', repl=r'\1return new_index + 1;', expect=r'piggylist\.createNode :: .*postcondition'),
+    dict(name='createNode: counters updated before the block is stored', file=PL, find=r'(std::size_t createNode\(\) \{.*?)blockLookupTable\[num_containers\] = new T\[allocsize\];\s*num_containers \+= 1;\s*container_size \+= allocsize;', repl=r'\1num_containers += 1;\n                container_size += allocsize;\n                blockLookupTable[num_containers - 1] = new T[allocsize];', expect=r'piggylist\.createNode\.conc :: .*G\.order'),
+    dict(name='createNode: grows without taking the lock', file=PL, find=r'(std::size_t createNode\(\) \{.*?)sl\.lock\(\);(.*?)sl\.unlock\(\);', repl=r'\1\2', expect=r'piggylist\.createNode\.conc'),
+    # (replacing the `while` re-check by a single unconditional growth step only over-allocates: INV_PL still holds; a change that removes the loop is exit 2: the hook anchor is gone)
     dict(name='RI get: uses BLOCKBITS-1', file=PL, find=r'(inline T& get\(std::size_t index\) const \{\s*std::size_t nindex = index \+ INITIALBLOCKSIZE;.*?return this->getBlock\(blockNum - BLOCKBITS)\)', repl=r'\1 + 1)', expect=r'piggylist\.ri_get'),
 ]
